@@ -10,7 +10,10 @@ ERRS = [b"Error: printer halted\n", b"error:9\n", b"ALARM:1\n", b"!! fatal\n", b
 STATUS = [b"X:1.00 Y:2.00 Z:0.00 E:0.00 Count X:80 Y:160 Z:0\n", b"T:21.5 /0.0 B:22.1 /0.0 @:0 B@:0\n",
           b"<Idle|MPos:1.000,2.000,3.000|FS:100,200>\n", b"echo:busy: processing\n", b"[PRB:1.000,2.000,-3.500:1]\n"]
 NONASCII = "G1 X3 ; caf\u00e9 \u4e2d\n".encode("utf-8")
-STMTS = [b"G1 X1 Y2\n", b"M114\n", b"M105\n", b"G0 Z5 ; lift\n", b"  G4 P1  \n", b"T1 M6\n", b"M3 S1000\n", b"G1 X10 F600\r\n"]
+STMTS = [b"G1 X1 Y2\n", b"M114\n", b"M105\n", b"G0 Z5 ; lift\n", b"  G4 P1  \n", b"T1 M6\n", b"M3 S1000\n", b"G1 X10 F600\r\n",
+         # one-character statements (Grbl's status query, feed hold, cycle start; added after seed C16i, which stopped waiting
+         # for their acknowledgement): handed to write() they are statements like any other, and the device acknowledges them
+         b"?\n", b"!\n", b"~\n", b"?\n"]
 
 
 def cfg(n, err, status, inv, live=True, loss=False, old_wait=False):
